@@ -160,6 +160,14 @@ MUTANTS = [
  ("c08-var-comma-any", "C08", "C08.R21", "css/parser/tokenizer.go", "if lastIsComma && name != \"var\" {", "if lastIsComma {"),
  ("c08-var-empty-len", "C08", "C08.R16", "html/tree/style.go", "\tif hasDefault {\n\t\tsources", "\tif hasDefault && len(default_) != 0 {\n\t\tsources"),
  ("c08-fontface-src-append", "C08", "C08.R23", "css/validation/descriptors.go", "\tout.Src = l // a repeated descriptor replaces the previous one\n", "\tout.Src = append(out.Src, l...)\n"),
+ # --- rules written for batch 12: behaviour-preserving forms that must stay silent
+ ("c02-insert-copy-form", "C02", "", "html/document/stacking.go", "\t*a = append((*a)[:i], append([]StackingContext{item}, (*a)[i:]...)...)\n", "\t*a = append(*a, item)\n\tcopy((*a)[i+1:], (*a)[i:])\n\t(*a)[i] = item\n"),
+ ("c14-critical-positive-form", "C14", "", "svg/bounding_box.go", "\t\tif !(0 <= t && t <= 1) {\n\t\t\tcontinue\n\t\t}\n\t\tx, y := curve.evaluateCurve(t)\n\n\t\tbbox = append(bbox, point{x, y})\n", "\t\tif t >= 0 && t <= 1 {\n\t\t\tx, y := curve.evaluateCurve(t)\n\t\t\tbbox = append(bbox, point{x, y})\n\t\t}\n"),
+ ("c01-repeat-two-tests", "C01", "", "css/counters/counters.go", "\t\tif repetitions < 0 || repetitions > maxSymbolRepeat {\n\t\t\treturn \"\", false\n\t\t}\n", "\t\tif repetitions < 0 {\n\t\t\treturn \"\", false\n\t\t}\n\t\tif repetitions > maxSymbolRepeat {\n\t\t\treturn \"\", false\n\t\t}\n"),
+ ("c13-spacing-local", "C13", "", "html/layout/preferred.go", "\t\t\tspacing = pr.Float(cell.Colspan-1) * table.Style.GetBorderSpacing()[0].Value\n", "\t\t\tsp := table.Style.GetBorderSpacing()\n\t\t\tspacing = pr.Float(cell.Colspan-1) * sp[0].Value\n"),
+ ("c03-flag-reset-form", "C03", "", "css/validation/validation.go", "\t\t\tvar declarationPrelude []Token\n\t\t\tfor i, part := range pa.SplitOnComma(declaration.Prelude) {\n\t\t\t\tif i != 0 {\n\t\t\t\t\tdeclarationPrelude = append(declarationPrelude, pa.NewLiteral(\",\", pos11))\n\t\t\t\t}\n\t\t\t\thasNesting := false\n", "\t\t\tvar (\n\t\t\t\tdeclarationPrelude []Token\n\t\t\t\thasNesting         bool\n\t\t\t)\n\t\t\tfor i, part := range pa.SplitOnComma(declaration.Prelude) {\n\t\t\t\thasNesting = false\n\t\t\t\tif i != 0 {\n\t\t\t\t\tdeclarationPrelude = append(declarationPrelude, pa.NewLiteral(\",\", pos11))\n\t\t\t\t}\n"),
+ ("c16-sort-unstable-again", "C16", "C16.R13", "html/layout/grid.go", "sort.SliceStable(children, func(i, j int) bool { return children[i].Box().Style.GetOrder()", "sort.Slice(children, func(i, j int) bool { return children[i].Box().Style.GetOrder()"),
+ ("c01-nilcheck-dropped", "C01", "C01.R33", "svg/elements.go", "\t\tif intrinsicRatio == nil { // default object size\n\t\t\tintrinsicHeight = pr.Float(150)\n\t\t} else {\n\t\t\tintrinsicHeight = intrinsicWidth.V() / intrinsicRatio.V()\n\t\t}\n", "\t\tintrinsicHeight = intrinsicWidth.V() / intrinsicRatio.V()\n"),
 ]
 
 def main():
